@@ -403,6 +403,8 @@ class WriteX:
     def loop(self, f: ast.For, count_expr: ast.AST) -> tuple:
         it = f.iter
         src_name = self.name_of(it)
+        where = self.cls or (self.stack[-1] if self.stack else "?")
+        ITER_ORDER.append((where, norm_name(src_name if src_name is not None else self.name_of(count_expr)), iter_kind(it)))
         if src_name is None:
             src_name = self.name_of(count_expr)
         saved = dict(self.bind)
@@ -481,6 +483,8 @@ class WriteX:
             if len(c.args) < 2:
                 raise Unsupported(f"{fn}: unexpected arity")
             nm = self.name_of(c.args[1])
+            if fn.endswith("_list") and self.cls is not None:
+                ITER_ORDER.append((self.cls, norm_name(nm), iter_kind(c.args[1])))
             self._last_opt_var = c.args[1].id if isinstance(c.args[1], ast.Name) else None
             return [field(nm, helper_codec(self.src, fn, self.stack))]
         if uses_name(c, "data"):
@@ -570,6 +574,17 @@ def helper_codec(src: Src, fn: str, stack: tuple[str, ...]) -> tuple:
 
 
 RECURSIVE: dict[str, tuple] = {}
+ITER_ORDER: list[tuple[str, str, str]] = []     # (class or helper, field, "sorted" | "insertion" | "sequence")
+
+
+def iter_kind(e: ast.AST) -> str:
+    if isinstance(e, ast.Call) and isinstance(e.func, ast.Name) and e.func.id == "sorted":
+        return "sorted"
+    if isinstance(e, ast.Call) and isinstance(e.func, ast.Attribute) and e.func.attr in ("items", "keys", "values"):
+        return "insertion"
+    if isinstance(e, ast.Name) and e.id == "self":
+        return "insertion"
+    return "sequence"
 
 
 def contains_ref(c: tuple, name: str) -> bool:
@@ -1327,6 +1342,7 @@ def write_attrs(c: tuple) -> set[str]:
 
 def extract(repo: str = REPO) -> dict[str, Any]:
     RECURSIVE.clear()
+    ITER_ORDER.clear()
     src = Src(repo)
     res: dict[str, Any] = {"classes": {}, "uncovered": {}, "hand": sorted(HAND), "json": {}, "tags": src.tags}
     tag_of: dict[str, str] = {}
@@ -1393,6 +1409,12 @@ def extract(repo: str = REPO) -> dict[str, Any]:
         side = "write" if fn.startswith("write_") else "read"
         res["helpers"].setdefault("fn:" + base, {})[side] = hoist(merge_tag_refs(fix_refs(c, tag_of), tag_of))
     res["tag_of"] = tag_of
+    try:
+        tab = helper_codec(src, "read_symbol", ())
+        res["lazy_classes"] = [c[1] for _, c in tab[1] if c[0] in ("ref", "ref!")] if tab[0] == "table" else []
+    except Exception:
+        res["lazy_classes"] = []
+    res["iter_order"] = sorted(set(ITER_ORDER))
     # flags constants for the JSON side
     for k, j in res["json"].items():
         fl: list[str] = []
@@ -1448,6 +1470,8 @@ def lean_c(c: tuple, tag_of: dict[str, str], side: str, reads_own: set[str]) -> 
         for t, x in c[1]:
             if t == "*any*":
                 for n, tt in tag_of.items():
+                    if n in reads_own:
+                        continue
                     ents.append(f"(T_{tt}, {lean_c(subst_anyref(x, ('rawref', n)), tag_of, side, reads_own)})")
                 continue
             ents.append(f"(T_{t}, {lean_c(x, tag_of, side, reads_own)})")
@@ -1489,8 +1513,9 @@ def render(res: dict[str, Any]) -> str:
     reads_own = {k for k, v in res["classes"].items() if v["reads_own_tag"]}
     L = ["/- GENERATED by translate/schemas.py from mypy/{cache,nodes,types}.py — do not edit. -/",
          "import MypyVerif.Model.Codec", "namespace Codec.Gen", "open Codec Codec.K", ""]
-    tagged = [(k, tag_of[k]) for k in res["classes"] if k in tag_of]
-    L.append("/-- `x.write(data)` on an object of statically unknown class: tag, then that class's body -/")
+    tagged = [(k, tag_of[k]) for k in res["classes"] if k in tag_of and k not in reads_own]
+    L.append("/-- `x.write(data)` on an object of statically unknown class: tag, then that class's body.  Classes whose")
+    L.append("    `read` consumes its own tag (MypyFile, SymbolTableNode) never appear in a union (mypy/cache.py docstring). -/")
     L.append("def anyW : C := C.table [" + ", ".join(f'(T_{t}, .ref "{k}")' for k, t in tagged) + "]")
     L.append("")
     ok: list[str] = []
@@ -1544,6 +1569,24 @@ def render(res: dict[str, Any]) -> str:
     L.append("def binAttrs : List (String × List String) := [" +
              ", ".join(f'("{k}", {sl(v["bin_self_attrs"] or [])})' for k, v in js.items() if k in ok) + "]")
     L.append("")
+    L.append("/-- how each write-side loop / list helper argument is ordered: sorted(...) | insertion (dict) | sequence -/")
+    L.append("def iterOrder : List (String × String × String) := [" +
+             ", ".join(f'("{a}", "{b}", "{c}")' for a, b, c in res["iter_order"]) + "]")
+    kinds = []
+    for k in ok:
+        if k == "Instance":
+            kinds.append((k, "inst"))
+        elif k in tag_of and k != "MypyFile":
+            kinds.append((k, "body"))
+        elif k == "SymbolTable":
+            kinds.append((k, "one"))
+        else:
+            kinds.append((k, "other"))
+    kinds += [(h, "one") for h, _ in helpers]
+    L.append("/-- how the skipper (`extract_symbol`) meets each entry: class body / one tagged object / after INSTANCE / not claimed -/")
+    L.append("def kinds : List (String × Kind) := [" + ", ".join(f'("{k}", .{v})' for k, v in kinds) + "]")
+    L.append("/-- classes deserialised lazily: `SymbolTableNode.read` keeps `extract_symbol(data)` and parses it later with `read_symbol` -/")
+    L.append("def lazyClasses : List String := " + sl(res.get("lazy_classes", [])))
     L.append("def classTag : List (String × Nat) := [" + ", ".join(f'("{k}", T_{tag_of[k]})' for k in ok if k in tag_of) + "]")
     L.append("def extracted : List String := " + sl(ok))
     L.append("def handModelled : List String := " + sl(res["hand"]))
@@ -1584,7 +1627,7 @@ def expand_any(c: tuple, tag_of: dict[str, str], side: str, reads_own: set[str])
     """the term the Lean file denotes (refs of tagged classes become one-entry tables, `any` the full table)"""
     k = c[0]
     if k == "any":
-        return ("table", [(t, ("ref", n)) for n, t in tag_of.items()])
+        return ("table", [(t, ("ref", n)) for n, t in tag_of.items() if n not in reads_own])
     if k == "ref":
         n = c[1]
         if (side == "write" and n in tag_of) or (side == "read" and n in reads_own):
@@ -1602,7 +1645,8 @@ def expand_any(c: tuple, tag_of: dict[str, str], side: str, reads_own: set[str])
             x2 = expand_any(x, tag_of, side, reads_own)
             if t == "*any*":
                 for n, tt in tag_of.items():
-                    ents.append((tt, subst_anyref(x2, ("ref", n))))
+                    if n not in reads_own:
+                        ents.append((tt, subst_anyref(x2, ("ref", n))))
             else:
                 ents.append((t, x2))
         return ("table", ents)
